@@ -138,3 +138,93 @@ let () =
   register "jwfbom" (fun args -> match args with
     | [h] -> bb (well_formed_for_its_bom (unhexbytes h))
     | _ -> "?args")
+
+(* ---- document-level import (Json/JsonReactor.v): the JSON tree parsed by the harness, the imported document as text ----
+   JSON tree tokens (','-separated): n t f #<hex spelling> s<hex value> [ ... ] { k<hex> value ... }
+   (the tree as it is, then the tree after the proposed repair of C14-F3)
+   document: none | ok;v=<hex version>;t=<tree>;<num>.<gen>=v:<tree>;<num>.<gen>=s:<dict tree>:<D hex bytes | F hex file name>
+   (object trees in the token format of drv_json.cc; hex of the empty string is empty) *)
+let phex (l : n list) : string = let h = hexbytes l in if h = "-" then "" else h
+let punhex (h : string) : n list = if h = "" then [] else unhexbytes h
+
+let parse_jr (s : string) : jr_json =
+  let toks = Array.of_list (String.split_on_char ',' s) in
+  let pos = ref 0 in
+  let rec go () : jr_json =
+    let t = toks.(!pos) in
+    incr pos;
+    let rest = String.sub t 1 (String.length t - 1) in
+    match t.[0] with
+    | 'n' -> JrNull
+    | 't' -> JrBool true
+    | 'f' -> JrBool false
+    | '#' -> JrNum (punhex rest)
+    | 's' -> JrStr (punhex rest)
+    | '[' ->
+      let items = ref [] in
+      while toks.(!pos) <> "]" do items := go () :: !items done;
+      incr pos;
+      JrArr (List.rev !items)
+    | '{' ->
+      let items = ref [] in
+      while toks.(!pos) <> "}" do
+        let k = toks.(!pos) in
+        incr pos;
+        let key = punhex (String.sub k 1 (String.length k - 1)) in
+        let v = go () in
+        items := (key, v) :: !items
+      done;
+      incr pos;
+      JrObj (List.rev !items)
+    | _ -> failwith "jr tree"
+  in
+  go ()
+
+let rec toks_jobj (acc : string list) (o : jobj) : string list =
+  match o with
+  | JNull -> "n" :: acc
+  | JBool true -> "t" :: acc
+  | JBool false -> "f" :: acc
+  | JInt z -> ("i" ^ string_of_bytes (dec_of_Z z)) :: acc
+  | JReal s -> ("r" ^ phex s) :: acc
+  | JStr s -> ("s" ^ phex s) :: acc
+  | JName s -> ("N" ^ phex s) :: acc
+  | JRef (a, g) -> (Printf.sprintf "R%d.%d" (int_of_n a) (int_of_n g)) :: acc
+  | JArr l -> "]" :: List.fold_left toks_jobj ("[" :: acc) l
+  | JDict d -> "}" :: List.fold_left (fun ac (k, v) -> toks_jobj (("k" ^ phex k) :: ac) v) ("{" :: acc) d
+let show_jobj (b : Buffer.t) (o : jobj) : unit =
+  Buffer.add_string b (String.concat "," (List.rev (toks_jobj [] o)))
+
+let show_doc (r : jr_doc option * bool) : string =
+  match r with
+  | (_, true) -> "unmodelled"
+  | (None, _) -> "none"
+  | (Some d, _) ->
+    let b = Buffer.create 256 in
+    Buffer.add_string b ("ok;v=" ^ phex d.jd_version ^ ";t=");
+    show_jobj b d.jd_trailer;
+    List.iter (fun ((num, gen), p) ->
+      Buffer.add_string b (Printf.sprintf ";%d.%d=" (int_of_n num) (int_of_n gen));
+      match p with
+      | JrValue o -> Buffer.add_string b "v:"; show_jobj b o
+      | JrStream (dict, data) ->
+        Buffer.add_string b "s:"; show_jobj b (JDict (List.filter (fun (k, _) -> phex k <> "2f4c656e677468") dict));   (* without /Length *)
+        (match jr_stream_view dict data with
+         | JrBytes x -> Buffer.add_string b (":D" ^ phex x)
+         | JrNamedFile (name, None) -> Buffer.add_string b (":F" ^ phex name)
+         | JrNamedFile (name, Some n) -> Buffer.add_string b (":F" ^ phex name ^ "#" ^ string_of_int (int_of_n n))
+         | JrDataError -> Buffer.add_string b ":E"))
+      d.jd_objs;
+    Buffer.contents b
+
+let () =
+  register "jrimp" (fun args -> match args with
+    | [a] -> let j = parse_jr a in show_doc (jr_create false false j) ^ " " ^ show_doc (jr_create false true j)
+    | [a; c] -> let j1 = parse_jr a in let j2 = parse_jr c in
+      show_doc (jr_create_update false false j1 j2) ^ " " ^ show_doc (jr_create_update false true j1 j2)
+    | _ -> "?args");
+  (* the domain of the member-order theorems, decided on two parsed texts: 1 = both well-formed and equal after sorting *)
+  register "jrsame" (fun args -> match args with
+    | [a; c] -> let j1 = parse_jr a in let j2 = parse_jr c in
+      bb (jr_same_up_to_order true j1 j2) ^ bb (jr_same_up_to_order false j1 j2)
+    | _ -> "?args")
